@@ -275,7 +275,7 @@ impl Discrete<u64, f64> for Geometric {
         if x == 0 {
             0.0
         } else {
-            (1.0 - self.p).powi(x as i32 - 1) * self.p
+            (1.0 - self.p).powf((x - 1) as f64) * self.p
         }
     }
 
